@@ -301,7 +301,18 @@ class World:
                     self.solves.append((args[0], args[1]))
                     return (xsparse.spsolve(args[0], args[1]), 0)
                 if name in ("linalg.norm",):
-                    return Sink()
+                    # Frobenius norm of a sparse matrix / vector (a convergence measure)
+                    try:
+                        from .xeval import _norm_sqrt
+
+                        a = args[0]
+                        vals = list(a.entries.values()) if isinstance(a, xsparse.XSp) else list(XArray.from_nested(a).data)
+                        tot = 0
+                        for v in vals:
+                            tot = tot + v * v
+                        return _norm_sqrt(tot) if vals else Q(0)
+                    except Exception:
+                        return Sink()
                 return xsparse.sparse_hook(fn, args, kwargs)
             if tag in ("import:scipy.spatial.KDTree", "import:scipy.spatial.cKDTree"):
                 from .props.c08 import _ExactKDTree
